@@ -53,7 +53,7 @@ def _stats(ctx, dist, y, thr):
   return tp, fp, npos, nneg
 
 
-def calib_case(est_name, y, strategy, ordered=False):
+def calib_case(est_name, y, strategy, ordered=False, with_predict=False):
   y = list(y)
   n = len(y)
 
@@ -88,6 +88,12 @@ def calib_case(est_name, y, strategy, ordered=False):
         r = est.calibrate_threshold(pairs, yv, strategy=strategy, **kw)
     ctx.require('returns_self_and_sets_threshold', ctx.cond(r is est and 'threshold_' in vars(est)))
     thr = est.threshold_
+    if with_predict:
+      # "predicting with the stored threshold_": predict accepts exactly the pairs at distance <= threshold_ (no slack of any kind)
+      with (_Patch(isinstance=_sym_isinstance) if ctx.symbolic else _Null()):
+        pred = est.predict(pairs)
+      for i in range(n):
+        ctx.require('predict_accepts_exactly_up_to_the_stored_threshold', ctx.iff(ctx.cond(int(pred[i]) == 1), _accepts(ctx, s[i], thr)))
     dist = [s[i] for i in range(n)]     # |s_i| with s_i >= 0
     cands = dist + [-1.0]               # every distinct cut-off behaviour: accept up to d_j, or nothing
     tp0, fp0, npos, nneg = _stats(ctx, dist, y, thr)
@@ -275,6 +281,10 @@ def cases(tier, seed):
                           % (n, list(y), {'accuracy': '', 'f_beta': 'beta arbitrary >= 0 (n<=3) or in {0,.5,1,2} (n>=4)', 'max_tpr': 'min_rate arbitrary in [0,1]',
                                           'max_tnr': 'min_rate arbitrary in [0,1]'}[strategy], g, rep),
                           tiers=tiers, cost=n ** 3, max_paths=100000, validate=8, hard_timeout_s=3000))
+    for strategy in ('accuracy', 'max_tpr'):
+      out.append(case('%s_with_predict_g%d_pnp' % (strategy, gi), calib_case(rep, (1, -1, 1), strategy, with_predict=True), FUNCS,
+                      '3 validation pairs with labels [1,-1,1], distances arbitrary reals >= 0, %s: calibration followed by predict on the same pairs; group %s on %s'
+                      % (strategy, g, rep), cost=10, max_paths=100000, validate=8, hard_timeout_s=900))
     # larger validation sets, pairs listed by non-decreasing distance: runs of tied groups with the same label composition
     # (collinear ROC points) need >= 6 pairs
     for strategy in ('accuracy', 'f_beta', 'max_tpr', 'max_tnr'):
